@@ -16,6 +16,14 @@ import (
 
 var verifLangs = []i18n.Language{"aaa", "bbb", "ccc"}
 
+// translations exist in two languages (quick) / in all three (thorough)
+func verifNumTranslated() int {
+	if zzverif.Thorough() {
+		return 3
+	}
+	return 2
+}
+
 // verifLang returns an arbitrary language among n candidates as a symbolic
 // value (one solver variable, no fork).
 func verifLang(name string, n int) i18n.Language {
@@ -74,6 +82,16 @@ func verifRefPick(chain []i18n.Language, base i18n.Language, trans map[i18n.Lang
 }
 
 func verifAllowed(name string) []i18n.Language {
+	if zzverif.Thorough() {
+		switch zzverif.Choice(name+"-3", 4) {
+		case 1:
+			return []i18n.Language{"ccc", "aaa"}
+		case 2:
+			return []i18n.Language{"bbb", "ccc", "aaa"}
+		case 3:
+			return []i18n.Language{"ccc"}
+		}
+	}
 	switch zzverif.Choice(name, 5) {
 	case 1:
 		return []i18n.Language{"aaa"}
@@ -119,7 +137,7 @@ func verifC18Msg(kText, kAtt, kQR int) {
 
 	loc := definition.NewLocalization()
 	trText, trAtt, trQR := map[i18n.Language][]string{}, map[i18n.Language][]string{}, map[i18n.Language][]string{}
-	for _, l := range verifLangs[:2] {
+	for _, l := range verifLangs[:verifNumTranslated()] {
 		if t, ok := verifTranslation("text-translation", l, "text", kText); ok {
 			trText[l] = t
 			loc.SetItemTranslation(l, "a1", "text", t)
@@ -232,7 +250,7 @@ func VerifC18_Category() {
 	base := verifLang("base-language", 3)
 	loc := definition.NewLocalization()
 	trName, trCat := map[i18n.Language][]string{}, map[i18n.Language][]string{}
-	for _, l := range verifLangs[:2] {
+	for _, l := range verifLangs[:verifNumTranslated()] {
 		if t, ok := verifTranslation("name-translation", l, "name", 5); ok {
 			trName[l] = t
 			loc.SetItemTranslation(l, "cd", "name", t)
